@@ -53,6 +53,7 @@ type Contract struct {
 	Line         int
 	Asserts      []Clause
 	Defines      []Clause // iface: definitional postconditions (assumed at calls, not checked on implementers)
+	RacEnsures   []Clause // run-time-only postconditions (bounded search / replay); never counted as proved
 	PanicInv     []Clause // recover scope: holds whenever a panic reaches the deferred closure (assumed; see DESIGN)
 	ResetFirst   []Clause // fields that must be overwritten before anything else happens
 	Owns         []string // type names (pkg.Type) whose objects are private mutable state: writes to them need no frame obligation
@@ -69,7 +70,7 @@ type Contract struct {
 func (c *Contract) Key() string { return c.Pkg + "." + c.Func }
 
 var clauseKW = map[string]bool{
-	"func": true, "iface": true, "type": true, "lemma": true, "predicate": true, "panic_invariant": true, "reset_first": true, "property": true, "requires": true, "ensures": true,
+	"func": true, "iface": true, "type": true, "lemma": true, "predicate": true, "panic_invariant": true, "rac_ensures": true, "reset_first": true, "property": true, "requires": true, "ensures": true,
 	"panics_if": true, "panics_only_if": true, "panics_iff": true, "maypanic": true, "modifies": true,
 	"let": true, "loop": true, "invariant": true, "decreases": true, "inline": true, "trusted": true,
 	"recover": true, "bounded_view": true, "end": true, "defines": true, "view": true, "split": true, "establishes": true, "owns": true,
@@ -274,6 +275,8 @@ func parseContractText(text, path, pkg string, cs *ContractSet) error {
 				for _, v := range strings.Split(rc.text[i+4:], ",") {
 					c.SplitVals = append(c.SplitVals, strings.TrimSpace(v))
 				}
+			case "rac_ensures":
+				c.RacEnsures = append(c.RacEnsures, cl)
 			case "panic_invariant":
 				c.PanicInv = append(c.PanicInv, cl)
 			case "reset_first":
